@@ -49,6 +49,8 @@ def random_int_spec(rng, sys_kind: str, *, tight: bool | None = None, kinds=None
             spec["solver_kwargs"] = {"constraint_tol": 1e-13, "position_tol": 1e-12, "max_iters": 100}
             spec["reverse_check_tol"] = 1e-9
     spec["tight"] = bool(tight)
+    if kind in ("implicit_leapfrog", "implicit_midpoint", "constrained") and rng.integers(0, 4) == 0:
+        spec["norm"] = "euclid"  # documented alternative norm for convergence and reversibility tests
     return spec
 
 
